@@ -99,6 +99,16 @@ impl Object {
         Self::with_type((value << VALUE_SHIFT_BITS) as _, Type::Int)
     }
 
+    /// Create a new integer value, or None if the value does not fit in the bits available for integers
+    #[inline]
+    pub fn checked_int(value: isize) -> Option<Self> {
+        if (MIN_INT..=MAX_INT).contains(&value) {
+            Some(Self::int(value))
+        } else {
+            None
+        }
+    }
+
     /// Create a new function value
     pub fn function(ip: u32, num_locals: u16) -> Self {
         let value = ((ip as isize) << 16) | num_locals as isize;
